@@ -20,6 +20,9 @@ FROM_U64 = ['fn:Version::from@m_version']
 # from Range::parse or from the operations", so these are obligations of theirs too (not only of C01 / C06)
 WF_EST = ['clausere:#wf$', 'clausere:#small$', 'fn:intersect_all', 'fn:empty_range_desugar', 'fn:range_set_check', 'fn:Range::any', 'fn:Partial::normalize', 'fn:number_check', 'fn:BoundSet::intersect']
 
+# the version grammar of src/lib.rs, whole functions, under the assumed winnow contracts
+VGRAMMAR = ['mod:m_winnow', 'mod:m_vspec', 'fn:number', 'fn:version_core', 'fn:identifier', 'fn:build', 'fn:pre_release', 'fn:extras', 'fn:version', 'fn:Extras::values']
+WINNOW = 'A15: the contracts of the winnow 0.6 combinators the grammar uses (contracts/winnow_shim.rs, written from winnow\'s documentation and source; nothing of winnow is verified): sequence tuples, alt, opt, preceded, terminated, separated, map, try_map, take, context, literal, take_while, space0, digit1, eof, AsChar::is_alphanum; error payloads, Cut/Incomplete and the input position after a failed parse are not modelled'
 TEXT_SHELL = 'winnow text layer (tokenisation of a range / version text into operator + Partial values, `separated`, `alt`, `garbage`) is not under contract: the property is decided at AST level'
 STD = 'std axioms A1-A12 of DESIGN.md 2.4 (Box, cmp::max/min for a lawful Ord, Vec/String ordering, derived impls, Clone, iterator idioms, Hash feed) as listed in coverage.trusted_base'
 
@@ -51,6 +54,15 @@ PROPS = {
         assumptions=[STD, 'which identifier texts std parses as u64 (parse_spec is uninterpreted); the winnow call around the identifier() closure'],
         not_decided=['sort/min/max consistency is std\'s contract for a lawful Ord; lawfulness is what is proved'],
         witness='c04',
+    ),
+    'C05': dict(
+        title='Version::parse accepts exactly the whole well-formed version strings, with the denoted fields',
+        obligations=VGRAMMAR + ['fn:Version::parse_str', 'mod:m_vprops'],
+        assumptions=[WINNOW, 'A13\': std `str::parse::<u64>` = optional `+`, ASCII digits, no overflow (ax_parse_u64_digits / ax_parse_u64_nondigit)', 'vstd: `str::len` is the byte length; `Default::default()` of a pair of Vecs is two empty Vecs',
+                     'R15: the generic `S: AsRef<str>` entry is replaced by `&str`; R16: the payload of the returned SemverError is opaque (C17)',
+                     'reading of the statement: the loose spellings C12\'s quantifier names (leading zeros, v/V prefix followed by blanks, a prerelease without its hyphen, leading / trailing blanks) belong to the accepted language; everything else must be `major.minor.patch[-prerelease][+build]`'],
+        not_decided=['FromStr for Version (one line, delegates to parse): compared with parse by the bounded stand-in', 'the error returned for a rejected text (C17)'],
+        witness='c05',
     ),
     'C06': dict(
         title='no panic / overflow / non-termination in the core',
@@ -127,7 +139,6 @@ PROPS = {
 }
 
 NOT_APPLICABLE = {
-    'C05': 'accepted language of Version::parse is fixed by how winnow combinators compose (prefix match, no end-of-input check); no contract can be attached to `impl Parser` values in the installed Verus, and Kani did not finish the shortest valid input (5 symbolic bytes) in 20 min, nor in 25 min with alloc::fmt::format stubbed and the bytes drawn from 8 symbols, so not even a bounded Kani stand-in is available',
     'C12': 'print -> parse round trip of Version is core::fmt composed with the winnow parser; neither is within reach of Verus (no str/fmt reasoning) or Kani (format! + winnow)',
     'C13': 'print -> parse round trip of Range: same text layer (Display shapes vs primitive parser); only "Display for BoundSet never hits unreachable! on a well formed interval" is decided, under C06',
     'C17': 'error input()/offset()/location() depend on where winnow leaves the input on failure, on str slicing and a pointer difference; error kinds on which combinator fails first; none expressible as a contract on code either tool can read',
